@@ -172,6 +172,7 @@ func (store *BaseStore[E]) createCompositeEntitySymbol(name string, first linked
 		name:       name,
 		symbolType: rest.GetType(),
 		chain:      iterable,
+		tail:       last,
 		cursor:     nil,
 		cursorLastF: func(tx *bbolt.Tx, key []byte) (FieldType, []byte) {
 			// the cursor key is a typed set entry, the symbol expects the bare row id
